@@ -233,6 +233,8 @@ type emitter struct {
 	s       *simStage
 	written int
 	ci, di  int
+	slept   time.Duration // total planned delay spent (bounded, see sleepUnits)
+	writes  int
 	faults  []Fault // sorted by AtByte, -1 last
 	idx     int
 }
@@ -261,9 +263,14 @@ type dieError struct{ f Fault }
 
 func (d *dieError) Error() string { return "died" }
 
+// sleepUnits spends a planned delay. Each peer has a budget of 60 fake
+// seconds of planned delays per run, so that no plan can approach the
+// one-hour watchdog however large the stream is.
 func (e *emitter) sleepUnits(u int) {
-	if u > 0 {
-		time.Sleep(time.Duration(u*8 + actorIndex[e.s.kind]))
+	if u > 0 && e.slept < 60*time.Second {
+		d := time.Duration(u*8 + actorIndex[e.s.kind])
+		e.slept += d
+		time.Sleep(d)
 	}
 }
 
@@ -297,7 +304,8 @@ func (e *emitter) write(data []byte) error {
 			return nil
 		}
 		c := len(data)
-		if len(p.Chunks) > 0 {
+		e.writes++
+		if len(p.Chunks) > 0 && e.writes <= 4000 { // after 4000 planned chunks the rest goes out in one piece
 			k := p.Chunks[e.ci%len(p.Chunks)]
 			e.ci++
 			if k > 0 && k < c {
